@@ -74,40 +74,76 @@ theorem spectrum_to_flux_round_trip (s s' s'' : USpec) (f g : FUnit) (H C : ℚ)
       (fun v w hw' => flux_there_and_back v w H C _ _ hw' hH hC (waveTo_ne_zero _ _) (waveTo_ne_zero _ _)
         (by rw [waveTo_cocycle, waveTo_self]) f g) value wave hl hw
 
+/-- flux-unit conversions of a spectrum compose: A→B→C = A→C at the level of `Spectrum.to` (non-zero wavelengths) -/
+theorem spectrum_to_flux_cocycle (s s' : USpec) (f g h : FUnit) (H C : ℚ) (hH : H ≠ 0) (hC : C ≠ 0)
+    (hf : s.vu = some f) (hw : ∀ w ∈ s.wave, w ≠ 0) (h1 : toFlux g H C s = some s') :
+    toFlux h H C s' = toFlux h H C s := by
+  simp only [toFlux, hf, Option.some.injEq] at h1
+  subst h1
+  simp only [toFlux, hf, Option.some.injEq]
+  have hkm := waveTo_ne_zero (K := ℚ) s.wu .m
+  have hb := waveTo_ne_zero (K := ℚ) .m s.wu
+  have hkb : (waveTo .m s.wu : ℚ) * waveTo s.wu .m = 1 := by rw [waveTo_cocycle, waveTo_self]
+  congr 1
+  apply zipWith_comp _ _ _ (· ≠ 0) _ s.value s.wave hw
+  intro v w hw'
+  have hW : w * (waveTo s.wu .m : ℚ) ≠ 0 := mul_ne_zero hw' hkm
+  have hx : ∀ X : ℚ, X / (waveTo .m s.wu : ℚ) / waveTo s.wu .m = X := by
+    intro X; rw [div_div, hkb, div_one]
+  simp only [hx]
+  rw [flux_cocycle _ _ H C hW hH hC]
+
+/-- multi-argument `Spectrum.to(*units)` (model `applyTo`): two wavelength units in a row act as the last one alone, and a
+refused argument leaves the spectrum as the previous arguments left it -/
+theorem applyTo_wave_last_wins (H C : ℚ) (s : USpec) (a b : WUnit) :
+    applyTo H C s [a.name, b.name] = (toWave b s, none) := by
+  have ha : WUnit.ofName? a.name = some a := by cases a <;> rfl
+  have hb : WUnit.ofName? b.name = some b := by cases b <;> rfl
+  simp only [applyTo, ha, hb, spectrum_to_wave_cocycle]
+
+theorem applyTo_refusal_keeps_prefix (H C : ℚ) (s : USpec) (a : WUnit) (g : FUnit) (h : s.vu = none) :
+    applyTo H C s [a.name, g.name] = (toWave a s, some "TypeError") := by
+  have ha : WUnit.ofName? a.name = some a := by cases a <;> rfl
+  have hg : WUnit.ofName? g.name = none := by cases g <;> rfl
+  have hg' : FUnit.ofName? g.name = some g := by cases g <;> rfl
+  have hv : (toWave a s).vu = none := by simp [toWave, h]
+  simp only [applyTo, ha, hg, hg', toFlux, hv]
+
 /-- a unitless spectrum cannot be given a flux unit (TypeError), and is left as it was -/
 theorem spectrum_to_flux_unitless_refused (s : USpec) (g : FUnit) (H C : ℚ) (h : s.vu = none) :
     toFlux g H C s = none := by simp [toFlux, h]
 
-/-- exitance = π × radiance in every wavelength and flux unit (`exp` uninterpreted) -/
+/-- exitance = π × radiance in every wavelength and flux unit, between the two definitions translated separately from
+`planck_exitance` and `planck_radiance` (`exp` uninterpreted): a slip in one of the two functions breaks this proof -/
 theorem exitance_eq_pi_radiance {K : Type} [Field K] [CharZero K] (expf : K → K) (pi H C kB w T : K) :
     ∀ (wu : WUnit) (vu : FUnit),
-      planck expf (2 * pi) H C kB w T wu vu = pi * planck expf 2 H C kB w T wu vu := by
+      planckExitance expf pi H C kB w T wu vu = pi * planckRadiance expf pi H C kB w T wu vu := by
   intro wu vu
-  cases vu <;> simp only [planck, fluxTo] <;> ring
+  cases vu <;> simp only [planckExitance, planckRadiance, fluxTo] <;> ring
 
 /-- Planck's law describes the same physical quantity whichever wavelength unit is requested: the same physical
-wavelength expressed in `u'` gives the density per `u'`, i.e. the density per `u` divided by the factor `u→u'`
-(`exp` uninterpreted, so the two code paths are the same expression up to the proven factors) -/
-theorem planck_unit_independent {K : Type} [Field K] [CharZero K] (expf : K → K) (p H C kB w T : K) :
+wavelength expressed in `u'` gives the density per `u'`, i.e. the density per `u` divided by the factor `u→u'` -/
+theorem planck_unit_independent {K : Type} [Field K] [CharZero K] (expf : K → K) (pi H C kB w T : K) :
     ∀ (u u' : WUnit) (v : FUnit),
-      planck expf p H C kB (w * waveTo u u') T u' v = planck expf p H C kB w T u v / waveTo u u' := by
+      planckRadiance expf pi H C kB (w * waveTo u u') T u' v = planckRadiance expf pi H C kB w T u v / waveTo u u' ∧
+      planckExitance expf pi H C kB (w * waveTo u u') T u' v = planckExitance expf pi H C kB w T u v / waveTo u u' := by
   intro u u' v
   have hm : w * (waveTo u u' : K) * waveTo u' .m = w * waveTo u .m := by rw [mul_assoc, waveTo_cocycle]
   have hb : (waveTo .m u' : K) = waveTo .m u * waveTo u u' := (waveTo_cocycle _ _ _).symm
   have h1 := waveTo_ne_zero (K := K) .m u
   have h2 := waveTo_ne_zero (K := K) u u'
-  cases v <;> simp only [planck, hm, hb] <;> field_simp
+  constructor <;> cases v <;> simp only [planckRadiance, planckExitance, hm, hb] <;> field_simp
 
 /-- … and whichever flux unit: converting the result in unit `v` back to `wlam` gives the `wlam` result -/
-theorem planck_flux_unit_independent {K : Type} [Field K] [CharZero K] (expf : K → K) (p H C kB w T : K)
+theorem planck_flux_unit_independent {K : Type} [Field K] [CharZero K] (expf : K → K) (pi H C kB w T : K)
     (hw : w ≠ 0) (hH : H ≠ 0) (hC : C ≠ 0) :
     ∀ (u : WUnit) (v : FUnit),
-      fluxTo v .wlam (planck expf p H C kB w T u v * waveTo .m u) (w * waveTo u .m) H C
-        = planck expf p H C kB w T u .wlam * waveTo .m u := by
+      fluxTo v .wlam (planckRadiance expf pi H C kB w T u v * waveTo .m u) (w * waveTo u .m) H C
+        = planckRadiance expf pi H C kB w T u .wlam * waveTo .m u := by
   intro u v
   have h1 := waveTo_ne_zero (K := K) .m u
   have h2 := waveTo_ne_zero (K := K) u .m
-  cases v <;> simp only [planck, fluxTo] <;> field_simp <;> simp
+  cases v <;> simp only [planckRadiance, fluxTo] <;> field_simp <;> simp
 
 /-- non-vacuity: 700 nm → µm on a `wlam` density, concrete numbers -/
 example : toWave .um ⟨[500, 700], [2, 4], .nm, some .wlam⟩ = ⟨[1/2, 7/10], [2000, 4000], .um, some .wlam⟩ := by
